@@ -188,8 +188,15 @@ func runCheck(id, tier string) int {
 		for _, f := range r.Funcs {
 			funcs[f] = true
 		}
-		// vacuity guards
-		if r.Completed == 0 {
+		// vacuity guards (a path that ends in a known-finding region reached its assertion with a model:
+		// it counts as reached, so a job made only of such paths is not vacuous)
+		knownHits := 0
+		for _, f := range r.Findings {
+			if f.Kind == "known" {
+				knownHits++
+			}
+		}
+		if r.Completed == 0 && knownHits == 0 {
 			oc.broken = append(oc.broken, fmt.Sprintf("job %s: no path completed (aborted=%v)", j.Name, r.Aborted))
 		}
 		for _, s := range r.StaticSites {
@@ -202,7 +209,7 @@ func runCheck(id, tier string) int {
 				siteHits[k]++
 			}
 		}
-		if len(r.Samples) == 0 {
+		if len(r.Samples) == 0 && knownHits == 0 {
 			oc.broken = append(oc.broken, fmt.Sprintf("job %s: reachability twin failed (no completed path has a model)", j.Name))
 		}
 		nViol := 0
